@@ -151,6 +151,29 @@ def play_history(rng, song, kind="plain"):
     return h
 
 
+def reload_history(rng, song_a, song_b):
+    """one instance, two songs: what was switched off, soloed or masked for the first song must not outlive the load of the
+    second (the per-song reset), whatever was played or sought in between; the second song is then played completely"""
+    h = [{"e": "Init", "rate": 44100, "chips": 2}, song_a, {"e": "SetHooks"}]
+    if rng.random() < 0.25:
+        m = rng.choice([(1, 2), (2, 1)]); h.append({"e": "SetTempo", "num": m[0], "den": m[1]})
+    h.append({"e": "Load"})
+    nt = len(song_a["tracks"])
+    for _ in range(rng.choice([1, 1, 2, 3])):
+        r = rng.random()
+        if r < 0.55: h.append({"e": "TrackOpt", "t": rng.randrange(nt), "o": 2})                      # off
+        elif r < 0.75: h.append({"e": "TrackOpt", "t": rng.randrange(nt), "o": 3})                    # solo
+        else: h.append({"e": "ChanEn", "c": rng.randrange(max(nt, len(song_b["tracks"])) + 1), "en": 0})
+    r = rng.random()
+    if r < 0.3: h.append({"e": "PlayTicks", "steps": [], "max": rng.choice([2, 5, 9]), "partial": 1})
+    elif r < 0.5: h.append({"e": "PlayTicks", "steps": [], "max": 3000})
+    elif r < 0.6: h.append({"e": "Seek", "us": rng.choice([0, 100000, 700000])})
+    h += [song_b, {"e": "Load"}]
+    h += rewind_prelude(rng)
+    h.append({"e": "PlayTicks", "steps": [], "max": 3000})
+    return h
+
+
 def ref_times(song):
     """event times (us) of a song from the integral-tempo family (python twin used only to pick seek targets)"""
     tempi = []
